@@ -1005,6 +1005,77 @@ def homogeneity_degree(v, scaled, unit=()):
     return degs.pop() if degs else 0
 
 
+def evaluate_concrete(v, env):
+    """Value of a Poly / Rat when the atoms in `env` take the given concrete reals and abs / max / min atoms are
+    recomputed from their arguments; None when another atom occurs."""
+    from .algebra import Poly, Rat, AlgebraError
+    if isinstance(v, Rat):
+        n, d = evaluate_concrete(v.n, env), evaluate_concrete(v.d, env)
+        if n is None or d is None:
+            return None
+        try:
+            return n / d
+        except (ZeroDivisionError, AlgebraError):
+            return None
+    if not isinstance(v, Poly):
+        return v if isinstance(v, (int, Fr)) else None
+    mapping = {}
+    for atom in v.atoms():
+        if atom in env:
+            mapping[atom] = Poly.const(env[atom])
+        elif atom in ATOM_ARGS:
+            fn, args = ATOM_ARGS[atom]
+            vals = []
+            for x in args:
+                c = evaluate_concrete(x, env)
+                c = concrete_real(c) if c is not None else None
+                if c is None:
+                    return None
+                vals.append(c)
+            mapping[atom] = Poly.const(abs(vals[0]) if fn == 'abs' else (max(vals) if fn == 'max' else min(vals)))
+        else:
+            return None
+    try:
+        return v.subs(mapping)
+    except (AlgebraError, TypeError):
+        return None
+
+
+def offset_depends_on_point(d, xnames):
+    """Witness that `d` (= point - x) is not one value for all x: its values at x = 3 and at |x| = 10^200 or 10^400 (every
+    other atom at 2^-10).  None when no witness is found (d may still be constant in x: undecided)."""
+    from .algebra import Poly
+    if not isinstance(d, Poly):
+        return None
+
+    def at(X):
+        env = {}
+        for atom in d.atoms():
+            _collect_plain_atoms(atom, env)
+        env = {a_: (X if a_ in xnames else Fr(1, 1024)) for a_ in env}
+        return evaluate_concrete(d, env)
+    base = at(Fr(3))
+    if base is None:
+        return None
+    for X in (Fr(10) ** 200, -Fr(10) ** 200, Fr(10) ** 400, Fr(10) ** -200):
+        other = at(X)
+        if other is not None and repr(other) != repr(base):
+            return {'x': '3', 'point_minus_x': repr(base)[:80], 'other_x': '10^%d' % (len(str(abs(X).numerator)) - 1) if abs(X) > 1 else '10^-200',
+                    'point_minus_x_there': repr(other)[:80]}
+    return None
+
+
+def _collect_plain_atoms(atom, out):
+    from .algebra import Poly, Rat
+    if atom in ATOM_ARGS:
+        for x in ATOM_ARGS[atom][1]:
+            if isinstance(x, (Poly, Rat)):
+                for a_ in x.atoms():
+                    _collect_plain_atoms(a_, out)
+    else:
+        out[atom] = True
+
+
 def _replace_even(v, name, arg):
     """atom^(2k) -> arg^(2k) in a Poly / Rat; None when an odd power of the atom occurs."""
     from .algebra import Z8, Poly, Rat
